@@ -1251,3 +1251,15 @@ var _ = late(func() {
 		Clause: "JitterTicker's generation counter is an integer of at least 32 bits (a callback of a timer armed 2^bits Resets ago would otherwise pass the generation test)",
 		Run:    ruleGenWidth([3]string{"xtime", "JitterTicker", "gen"})})
 })
+
+var _ = late(func() {
+	properties["C07"].Rules = append(properties["C07"].Rules, &Rule{ID: "C07.reducer-errors", Floor: 4,
+		Clause: "same rule as C08.err-propagate, restricted to the stream reducers (Collect, Last, One, Reduce, Equal): an error of the source other than End is never read as \"the sequence is over\" - One must not report its first item when the look-ahead for a second one failed",
+		Run:    subRule(ruleErrPropagate, "stream.Collect|", "stream.Last|", "stream.One|", "stream.Reduce|", "stream.Equal|")})
+	properties["C08"].Rules = append(properties["C08"].Rules, &Rule{ID: "C08.bg-cancellable", Floor: 4,
+		Clause: "same rule as C14.bg-cancellable: every blocking channel operation in MapStream's goroutines can be interrupted by the group's context (or a peer's deferred close): a reader parked on a bare hand-over after the only free worker failed keeps the errgroup - and with it the error the consumer is waiting for - from ever finishing",
+		Run:    func(c *Ctx, r *R) { ruleBgCancellable(c, r, "parallel.MapStream") }})
+	properties["C09"].Rules = append(properties["C09"].Rules, &Rule{ID: "C09.bg-cancellable", Floor: 3,
+		Clause: "same rule as C11.bg-cancellable / C12.bg-cancellable: the goroutines that own a source (BatchFunc's reader, Merge's workers) can be interrupted wherever they block - a reader stuck on a bare send never reaches its deferred Close of the source, and Close of the returned stream never returns",
+		Run:    func(c *Ctx, r *R) { ruleBgCancellable(c, r, "stream.BatchFunc"); ruleBgCancellable(c, r, "stream.Merge") }})
+})
